@@ -161,6 +161,13 @@ class P:
                 items.append(self.pat())
                 self.accept(",")
             return ("ptuple", items)
+        if self.accept("["):
+            # C11: array pattern `let [a, b, c] = arr;` binds like a tuple pattern (arrays are tuples)
+            items = []
+            while not self.accept("]"):
+                items.append(self.pat())
+                self.accept(",")
+            return ("ptuple", items)
         if self.accept("mut"):
             return ("pvar", self.eat())
         v = self.eat()
